@@ -32,11 +32,19 @@ def random_weak_order(rng, n):
 def encode_ranks(rng, dense, how=None):
     """encode a dense rank vector as a list of Python numbers inducing the same weak order"""
     n = len(dense)
-    how = how or rng.choice(["int", "float", "mixed", "neg", "big", "gap", "bool", "frac", "huge"])
+    how = how or rng.choice(["int", "float", "mixed", "neg", "big", "gap", "bool", "frac", "huge", "near"])
     levels = sorted(set(dense))
     if how == "bool" and len(levels) > 2:
         how = "int"
-    if how == "int":
+    if how == "near":
+        # distinct floats a few ulps apart (0.1 + 0.2 against 0.3): different values, different places
+        x = rng.choice([0.3, 0.1 + 0.2 - 2e-16, 1.0, 1234.5, -2.5e-3, 1e9])
+        vals = {}
+        for l in levels:
+            vals[l] = x
+            for _ in range(rng.randint(1, 3)):
+                x = math.nextafter(x, math.inf)
+    elif how == "int":
         vals = {l: l for l in levels}
     elif how == "float":
         vals = {l: float(l) for l in levels}
@@ -147,6 +155,21 @@ def gen_teams(rng, stratum, beta, n=None, maxsize=8):
         # multi-player teams with unequal sigmas; used with a large gamma so that the kappa floor is reached
         for _ in range(n):
             teams.append([(rng.gauss(25, 8) * s, rng.choice([0.3, 2, 9, 9]) * rng.uniform(0.8, 1.2) * s) for _ in range(rng.randint(2, 3))])
+    elif stratum == "equal-ordinal":
+        # team-mates (and teams) with exactly equal ordinals mu - 3 sigma but different (mu, sigma), exactly representable: the rating
+        # objects then compare neither < nor > although they are different players
+        for _ in range(n):
+            o = float(rng.choice([10, 10, 4, 0, -3]))
+            sz = rng.randint(2, min(4, max(2, maxsize)))
+            sg = rng.sample([1.0, 2.0, 3.0, 4.0, 5.0, 6.0, 0.5, 2.5], sz)
+            teams.append([(o + 3.0 * x, x) for x in sg])
+    elif stratum == "ragged-newcomers":
+        # every player holds the same rating; the teams differ in size only
+        v = rng.choice([(25.0 * s, 25.0 / 3.0 * s), (rng.gauss(25, 6) * s, rng.uniform(1, 9) * s)])
+        sizes = [rng.randint(1, min(4, maxsize)) for _ in range(n)]
+        if len(set(sizes)) == 1:
+            sizes[0] = sizes[0] % min(4, maxsize) + 1
+        teams = [[v] * k for k in sizes]
     elif stratum == "identical":
         sz = rng.randint(1, 3)
         t = [(rng.gauss(25, 8) * s, rng.uniform(0.5, 9) * s) for _ in range(sz)]
@@ -160,7 +183,8 @@ def gen_teams(rng, stratum, beta, n=None, maxsize=8):
     return teams
 
 
-STRATA = ["typical", "typical", "wide", "corners", "mismatch", "identical", "equalsize", "floor", "lowedge", "lopsided", "bigsum", "newcomers", "integers"]
+STRATA = ["typical", "typical", "wide", "corners", "mismatch", "identical", "equalsize", "floor", "lowedge", "lopsided", "bigsum", "newcomers", "integers",
+          "equal-ordinal", "ragged-newcomers", "inflated-twin"]
 
 
 def gen_config(rng, default_bias=0.4):
@@ -179,7 +203,25 @@ def gen_game(rng, kind=None, stratum=None, ties=None, n=None, maxsize=8, encode=
     beta, kappa, tau = gen_config(rng)
     if stratum == "floor" and n is None:
         n = rng.randint(4, 8)
-    teams = gen_teams(rng, stratum, beta, n=n, maxsize=maxsize)
+    if stratum == "equal-ordinal":
+        beta = DEFAULTS["beta"]
+        if rng.random() < 0.6:
+            tau = 0.0
+    if stratum == "inflated-twin":
+        # a player next to one with the same mu whose sigma is exactly the first one's sigma inflated once by this model's tau
+        # (somebody who sat out a game): two different players, whatever == on (mu, sigma) says at any moment during the call
+        if tau == 0.0:
+            tau = beta / 50
+        teams = gen_teams(rng, "typical", beta, n=n, maxsize=min(maxsize, 3))
+        for t_ in teams:
+            m0, s0 = t_[0]
+            tw = (m0, math.sqrt(s0 * s0 + tau * tau))
+            if rng.random() < 0.5:
+                t_.append(tw)
+            else:
+                teams[rng.randrange(len(teams))].append(tw)
+    else:
+        teams = gen_teams(rng, stratum, beta, n=n, maxsize=maxsize)
     n = len(teams)
     r = rng.random()
     if r < 0.12:
@@ -204,5 +246,7 @@ def gen_game(rng, kind=None, stratum=None, ties=None, n=None, maxsize=8, encode=
         ls = rng.random() < 0.25
         if rng.random() < 0.25:
             lsopt = rng.random() < 0.5
+    if stratum == "inflated-twin":
+        tauopt = None
     return make_game(kind, teams, oc=oc, beta=beta, kappa=kappa, tau=tau, ls=ls, gamma=gamma,
                      tauopt=tauopt, lsopt=lsopt)
